@@ -171,7 +171,7 @@ Proof.
   induction l1 as [|p t IH]; intros l2 H1 H2 Hb; [exact H2|].
   cbn [app ns_chain] in *. destruct H1 as [Hh Ht].
   destruct t as [|q t'].
-  - apply ns_boundary_single in Hb. cbn [app]. split; [|exact H2].
+  - apply (proj1 (ns_boundary_single _)) in Hb. cbn [app]. split; [|exact H2].
     destruct l2; [exact I|]. intros Hpos. lia.
   - split; [exact Hh|]. apply IH; [exact Ht|exact H2|].
     apply (ns_boundary_cons p (q :: t')); [discriminate|exact Hb].
@@ -209,7 +209,7 @@ Lemma ns_messages_aux_app l1 : forall cur l2, l1 <> [] -> at_boundary l1 ->
 Proof.
   induction l1 as [|[f d] t IH]; intros cur l2 Hne Hb; [contradiction|].
   destruct t as [|q t'].
-  - apply ns_boundary_single in Hb. cbn [fst] in Hb. subst f. reflexivity.
+  - apply (proj1 (ns_boundary_single _)) in Hb. cbn [fst] in Hb. subst f. reflexivity.
   - assert (Hb' : at_boundary (q :: t')) by (apply (ns_boundary_cons (f, d) (q :: t')); [discriminate|exact Hb]).
     cbn [app messages_aux]. destruct (f =? 0).
     + change ((cur ++ d) :: messages_aux [] ((q :: t') ++ l2) = ((cur ++ d) :: messages_aux [] (q :: t')) ++ messages_aux [] l2).
@@ -228,7 +228,7 @@ Qed.
 Fixpoint ns_down (n : nat) : list Z :=
   match n with O => [] | S m => Z.of_nat m :: ns_down m end.
 
-Lemma ns_down_messages n : forall l cur, map fst l = ns_down (S n) ->
+Lemma ns_down_messages n : forall (l : list (Z * bytes)) cur, map fst l = ns_down (S n) ->
   messages_aux cur l = [cur ++ concat (map snd l)].
 Proof.
   induction n as [|n IH]; intros l cur E.
@@ -241,7 +241,7 @@ Proof.
     rewrite (IH t (cur ++ d) E2). cbn [map snd concat]. rewrite app_assoc. reflexivity.
 Qed.
 
-Lemma ns_down_chain n : forall l, map fst l = ns_down n -> ns_chain l.
+Lemma ns_down_chain n : forall (l : list (Z * bytes)), map fst l = ns_down n -> ns_chain l.
 Proof.
   induction n as [|n IH]; intros l E.
   - destruct l; [exact I|discriminate].
@@ -251,7 +251,7 @@ Proof.
     cbn [map ns_down] in E2. injection E2 as E3 _. intros _. lia.
 Qed.
 
-Lemma ns_down_boundary n : forall l, map fst l = ns_down (S n) -> at_boundary l.
+Lemma ns_down_boundary n : forall (l : list (Z * bytes)), map fst l = ns_down (S n) -> at_boundary l.
 Proof.
   induction n as [|n IH]; intros l E.
   - destruct l as [|p t]; [discriminate|]. cbn [map ns_down] in E. injection E as E1 E2.
@@ -262,7 +262,7 @@ Proof.
     apply ns_boundary_cons; [destruct t; discriminate|exact (IH t E2)].
 Qed.
 
-Lemma ns_down_range n : forall l, map fst l = ns_down n -> (n <= 255)%nat ->
+Lemma ns_down_range n : forall (l : list (Z * bytes)), map fst l = ns_down n -> (n <= 255)%nat ->
   Forall (fun p => 0 <= fst p <= 254) l.
 Proof.
   induction n as [|n IH]; intros l E Hn.
@@ -281,4 +281,513 @@ Qed.
 Lemma ns_zero_boundary l : Forall (fun p => fst p = 0) l -> at_boundary l.
 Proof.
   intros H. unfold at_boundary. apply Forall_rev in H. destruct (rev l); [exact I|exact (Forall_inv H)].
+Qed.
+
+(* ================================================================== *)
+(* 3. Send                                                             *)
+(* ================================================================== *)
+Lemma ns_fragment_spec : forall fuel count i m st b segs,
+  fragment fuel count i m st b = Ok segs ->
+  Z.of_nat fuel = count - i -> 0 < m -> blen b <= Z.of_nat fuel * m -> (fuel <= 255)%nat ->
+  is_byte_list b ->
+  concat (map s_data segs) = b /\ length segs = fuel /\
+  Forall (fun s => 0 <= s_frg s <= 254 /\ is_byte_list (s_data s) /\ blen (s_data s) <= m) segs /\
+  (st = 0 -> map s_frg segs = ns_down fuel) /\
+  (st <> 0 -> Forall (fun s => s_frg s = 0) segs).
+Proof.
+  induction fuel as [|f IH]; intros count i m st b segs H Hf Hm Hb Hf255 Hbl.
+  - cbn [fragment] in H. inversion H; subst segs.
+    rewrite (ns_blen0 b) by lia. repeat split; constructor.
+  - cbn [fragment] in H.
+    destruct (i >=? count) eqn:E1; [ns_b2z; lia|].
+    destruct (Z.min (blen b) m >? c_mtuLimit) eqn:E2; [discriminate|].
+    destruct (fragment f count (i + 1) m st (drop (Z.min (blen b) m) b)) as [l|w] eqn:E3; [|discriminate].
+    inversion H; subst segs. clear H.
+    pose proof (blen_nonneg b) as Hb0.
+    assert (Hsz : 0 <= Z.min (blen b) m <= blen b) by lia.
+    assert (Hbl' : is_byte_list (drop (Z.min (blen b) m) b)) by (apply ii_bl_drop; exact Hbl).
+    destruct (IH count (i + 1) m st _ l E3) as (C1 & C2 & C3 & C4 & C5); [lia|exact Hm| |lia|exact Hbl'|].
+    { rewrite (blen_drop _ _ Hsz). nia. }
+    split; [cbn [map concat]; ns_segf; rewrite C1; apply take_drop|].
+    split; [cbn [length]; rewrite C2; reflexivity|].
+    split.
+    { constructor; [|exact C3]. ns_segf.
+      split.
+      - destruct (st =? 0); [|lia]. unfold u8.
+        replace (count - i - 1) with (Z.of_nat f) by lia. rewrite Z.mod_small; lia.
+      - split; [apply ns_is_byte_list_take; exact Hbl|].
+        pose proof (blen_take_le_n (Z.min (blen b) m) b). lia. }
+    split.
+    + intros Hst. cbn [map ns_down]. ns_segf. rewrite (C4 Hst). f_equal.
+      subst st. cbn [Z.eqb]. unfold u8.
+      replace (count - i - 1) with (Z.of_nat f) by lia. rewrite Z.mod_small; lia.
+    + intros Hst. constructor; [|exact (C5 Hst)]. ns_segf.
+      destruct (st =? 0) eqn:E; [ns_b2z; contradiction|reflexivity].
+Qed.
+
+Lemma ns_frag_count_covers n m : 0 < m -> 0 <= n -> n <= frag_count n m * m /\ 1 <= frag_count n m.
+Proof.
+  intros Hm Hn. unfold frag_count. destruct (n <=? m) eqn:E; ns_b2z; [lia|].
+  split; [lia|]. apply Z.div_le_lower_bound; lia.
+Qed.
+
+Lemma ns_stream_append_spec k b q1 b1 :
+  stream_append k b = Ok (Some (q1, b1)) ->
+  (q1 = snd_queue k /\ b1 = b) \/
+  (exists X last tk, snd_queue k = X ++ [last] /\ q1 = X ++ [set_seg_data last (s_data last ++ tk)] /\
+     tk ++ b1 = b /\ blen (s_data last ++ tk) <= mss k /\ frag_count (blen b1) (mss k) <= 255).
+Proof.
+  unfold stream_append. intros H.
+  destruct (rev (snd_queue k)) as [|last before] eqn:Hrev.
+  - inversion H; subst. left; split; reflexivity.
+  - assert (Hq : snd_queue k = rev before ++ [last]).
+    { rewrite <- (rev_involutive (snd_queue k)), Hrev. reflexivity. }
+    destruct (blen (s_data last) <? mss k) eqn:Hlt; [|inversion H; subst; left; split; reflexivity].
+    cbv zeta in H.
+    destruct (frag_count _ _ >? 255) eqn:Hfc; [discriminate|].
+    destruct (_ >? c_mtuLimit) eqn:Hp; [discriminate|].
+    inversion H; subst q1 b1. clear H. right.
+    exists (rev before), last, (take (Z.min (blen b) (mss k - blen (s_data last))) b).
+    split; [exact Hq|]. split; [reflexivity|]. split; [apply take_drop|].
+    ns_b2z. split; [|exact Hfc].
+    rewrite blen_app. pose proof (blen_nonneg b).
+    pose proof (blen_take_le_n (Z.min (blen b) (mss k - blen (s_data last))) b). lia.
+Qed.
+
+(* the list-level part of sender_inv that Send touches (N = numbered, q = snd_queue, A = accepted) *)
+Definition ns_src_ok (stm : Z) (N : list (Z * bytes)) (q : list seg) (A : list bytes) : Prop :=
+  src_wf (N ++ map pay q) /\ at_boundary (N ++ map pay q) /\
+  (stm <> 0 -> stream_bytes N ++ concat (map s_data q) = concat A) /\
+  (stm = 0 -> messages (N ++ map pay q) = A).
+
+Lemma ns_set_snd_queue_id k : set_snd_queue k (snd_queue k) = k.
+Proof. destruct k; reflexivity. Qed.
+
+Lemma ns_map_fst_pay l : map fst (map pay l) = map s_frg l.
+Proof. rewrite map_map. reflexivity. Qed.
+
+Lemma ns_map_snd_pay l : map snd (map pay l) = map s_data l.
+Proof. rewrite map_map. reflexivity. Qed.
+
+Lemma ns_concat_snoc (X : list seg) s : concat (map s_data (X ++ [s])) = concat (map s_data X) ++ s_data s.
+Proof. rewrite map_app, concat_app. cbn [map concat]. rewrite app_nil_r. reflexivity. Qed.
+
+Lemma ns_concat_snoc' (A : list bytes) b : concat (A ++ [b]) = concat A ++ b.
+Proof. rewrite concat_app. cbn [concat]. rewrite app_nil_r. reflexivity. Qed.
+
+Lemma ns_send_tail_ok k q1 b1 b N A k' r :
+  inv k -> is_byte_list b1 ->
+  src_wf (N ++ map pay q1) -> at_boundary (N ++ map pay q1) ->
+  (stream k <> 0 -> stream_bytes N ++ concat (map s_data q1) ++ b1 = concat A ++ b) ->
+  (stream k = 0 -> messages (N ++ map pay q1) = A /\ b1 = b) ->
+  (q1 = snd_queue k /\ b1 = b) \/ frag_count (blen b1) (mss k) <= 255 ->
+  ns_src_ok (stream k) N (snd_queue k) A ->
+  send_tail k q1 b1 = Ok (k', r) ->
+  exists q', k' = set_snd_queue k q' /\
+    ((r = 0 /\ ns_src_ok (stream k) N q' (A ++ [b])) \/ (r <> 0 /\ ns_src_ok (stream k) N q' A)).
+Proof.
+  intros Hinv Hbl Hwf Hbd Hstr Hmsg Hcase Hold H. unfold send_tail in H.
+  destruct (negb (stream k =? 0) && (blen b1 =? 0)) eqn:Hc1.
+  { inversion H; subst k' r. clear H. exists q1. split; [reflexivity|]. left. split; [reflexivity|].
+    apply andb_true_iff in Hc1. destruct Hc1 as [Hs Hb0]. apply negb_true_iff in Hs. ns_b2z.
+    assert (Eb : b1 = []) by (apply ns_blen0; lia). subst b1.
+    split; [exact Hwf|]. split; [exact Hbd|]. split.
+    - intros Hst. specialize (Hstr Hst). rewrite app_nil_r in Hstr. rewrite ns_concat_snoc'. exact Hstr.
+    - intros Hst. contradiction. }
+  cbv zeta in H.
+  destruct (frag_count (blen b1) (mss k) >? 255) eqn:Hc2.
+  { inversion H; subst k' r. clear H. exists q1. split; [reflexivity|]. right. split; [lia|].
+    ns_b2z. destruct Hcase as [[E1 E2]|Hle]; [|lia]. subst q1. exact Hold. }
+  ns_b2z.
+  set (count := if frag_count (blen b1) (mss k) =? 0 then 1 else frag_count (blen b1) (mss k)) in *.
+  destruct (fragment (Z.to_nat count) count 0 (mss k) (stream k) b1) as [segs|w] eqn:Ef; [|discriminate].
+  inversion H; subst k' r. clear H.
+  exists (q1 ++ segs). split; [reflexivity|]. left. split; [reflexivity|].
+  pose proof (inv_mss_range k Hinv) as Hmss.
+  pose proof (ns_frag_count_covers (blen b1) (mss k) (proj1 Hmss) (blen_nonneg b1)) as [Hcov Hc1'].
+  assert (Hcnt : count = frag_count (blen b1) (mss k)).
+  { unfold count. destruct (frag_count (blen b1) (mss k) =? 0) eqn:E; ns_b2z; [lia|reflexivity]. }
+  destruct (ns_fragment_spec (Z.to_nat count) count 0 (mss k) (stream k) b1 segs Ef)
+    as (C1 & C2 & C3 & C4 & C5); [lia|lia|rewrite Z2Nat.id by lia; lia|lia|exact Hbl|].
+  set (L := N ++ map pay q1) in *. set (F := map pay segs).
+  assert (EL : N ++ map pay (q1 ++ segs) = L ++ F) by (rewrite map_app, app_assoc; reflexivity).
+  assert (HFne : F <> []).
+  { unfold F. destruct segs; [|discriminate]. cbn [length] in C2. lia. }
+  assert (HFfst : map fst F = map s_frg segs) by apply ns_map_fst_pay.
+  destruct (Z.to_nat count) as [|n] eqn:En; [lia|].
+  assert (HF : ns_chain F /\ at_boundary F).
+  { destruct (Z.eq_dec (stream k) 0) as [Hst|Hst].
+    - specialize (C4 Hst). rewrite <- HFfst in C4.
+      split; [exact (ns_down_chain _ _ C4)|exact (ns_down_boundary _ _ C4)].
+    - specialize (C5 Hst).
+      assert (HZ : Forall (fun p => fst p = 0) F).
+      { unfold F. apply Forall_map. exact C5. }
+      split; [apply ns_zero_chain; exact HZ|apply ns_zero_boundary; exact HZ]. }
+  destruct HF as [HFc HFb].
+  apply ns_src_wf_iff in Hwf. destruct Hwf as [HwfF HwfC].
+  unfold ns_src_ok. rewrite EL.
+  split.
+  { apply ns_src_wf_iff. split.
+    - apply Forall_app. split; [exact HwfF|]. unfold F. apply Forall_map.
+      eapply Forall_impl; [|exact C3]. intros s (S1 & S2 & S3). unfold ns_pay_ok, pay. cbn [fst snd].
+      split; [exact S1|]. split; [exact S2|]. unfold c_mtuLimit, c_IKCP_OVERHEAD in *. lia.
+    - apply ns_chain_app; assumption. }
+  split; [apply ns_boundary_app; assumption|].
+  split.
+  - intros Hst. specialize (Hstr Hst). rewrite map_app, concat_app, C1, ns_concat_snoc'. exact Hstr.
+  - intros Hst. destruct (Hmsg Hst) as [Hm Eb].
+    rewrite ns_messages_app by exact Hbd. rewrite Hm. f_equal.
+    specialize (C4 Hst). rewrite <- HFfst in C4.
+    unfold messages. rewrite (ns_down_messages n F [] C4). cbn [app].
+    unfold F. rewrite ns_map_snd_pay, C1, Eb. reflexivity.
+Qed.
+
+Lemma ns_send_ok k b k' r N A :
+  inv k -> is_byte_list b -> ns_src_ok (stream k) N (snd_queue k) A ->
+  send k b = Ok (k', r) ->
+  exists q', k' = set_snd_queue k q' /\
+    ((r = 0 /\ ns_src_ok (stream k) N q' (A ++ [b])) \/ (r <> 0 /\ ns_src_ok (stream k) N q' A)).
+Proof.
+  intros Hinv Hbl Hold H. rewrite send_unfold in H.
+  assert (Hsame : forall r0, r0 <> 0 -> Ok (k, r0) = Ok (k', r) ->
+    exists q', k' = set_snd_queue k q' /\
+    ((r = 0 /\ ns_src_ok (stream k) N q' (A ++ [b])) \/ (r <> 0 /\ ns_src_ok (stream k) N q' A))).
+  { intros r0 Hr0 E. inversion E; subst k' r. exists (snd_queue k).
+    split; [symmetry; apply ns_set_snd_queue_id|]. right. split; [exact Hr0|exact Hold]. }
+  destruct (blen b =? 0) eqn:Hb0; [apply (Hsame (-1)); [lia|exact H]|].
+  pose proof Hold as (Hwf & Hbd & Hstr & Hmsg).
+  assert (Hplain : send_tail k (snd_queue k) b = Ok (k', r) ->
+    exists q', k' = set_snd_queue k q' /\
+    ((r = 0 /\ ns_src_ok (stream k) N q' (A ++ [b])) \/ (r <> 0 /\ ns_src_ok (stream k) N q' A))).
+  { apply ns_send_tail_ok; try assumption.
+    - intros Hst. rewrite app_assoc, (Hstr Hst). reflexivity.
+    - intros Hst. split; [exact (Hmsg Hst)|reflexivity].
+    - left; split; reflexivity. }
+  destruct (stream k =? 0) eqn:Hst; [exact (Hplain H)|].
+  destruct (stream_append k b) as [[[q1 b1]|]|w] eqn:Hsa; [|apply (Hsame (-2)); [lia|exact H]|discriminate].
+  destruct (ns_stream_append_spec k b q1 b1 Hsa) as [[E1 E2]|(X & last & tk & Eq & Eq1 & Eb & Hlen & Hfc)].
+  { subst q1 b1. exact (Hplain H). }
+  ns_b2z.
+  assert (Hbtk : is_byte_list tk /\ is_byte_list b1).
+  { rewrite <- Eb in Hbl. apply ns_is_byte_list_app in Hbl. exact Hbl. }
+  assert (Efst : map fst (N ++ map pay (snd_queue k)) = map fst (N ++ map pay q1)).
+  { rewrite Eq, Eq1, !map_app. reflexivity. }
+  apply (ns_send_tail_ok k q1 b1 b N A k' r Hinv (proj2 Hbtk)); try assumption.
+  - apply ns_src_wf_iff in Hwf. destruct Hwf as [HwfF HwfC]. apply ns_src_wf_iff. split.
+    + rewrite Eq in HwfF. rewrite Eq1. rewrite map_app in *.
+      apply Forall_app in HwfF. destruct HwfF as [F1 F2]. apply Forall_app in F2. destruct F2 as [F2 F3].
+      apply Forall_app. split; [exact F1|]. apply Forall_app. split; [exact F2|].
+      cbn [map] in *. inversion F3 as [|x y (G1 & G2 & G3) _]; subst x y.
+      constructor; [|constructor]. unfold ns_pay_ok, pay in *. cbn [fst snd] in *. ns_segf.
+      split; [exact G1|]. split; [apply ns_is_byte_list_app; split; [exact G2|exact (proj1 Hbtk)]|].
+      pose proof (inv_mss_range k Hinv). unfold c_mtuLimit, c_IKCP_OVERHEAD in *. lia.
+    + exact (ns_chain_fst _ _ Efst HwfC).
+  - exact (ns_boundary_fst _ _ Efst Hbd).
+  - intros Hs. rewrite Eq1, ns_concat_snoc. ns_segf. rewrite <- (Hstr Hs), Eq, ns_concat_snoc, <- Eb.
+    rewrite <- !app_assoc. reflexivity.
+  - intros Hs. contradiction.
+  - right. exact Hfc.
+Qed.
+
+(* ================================================================== *)
+(* 4. Input up to its flush: snd_buf loses heads and gets husks        *)
+(* ================================================================== *)
+(* s' is s, possibly turned into an acknowledged husk *)
+Definition ns_husk (s s' : seg) : Prop :=
+  s_sn s' = s_sn s /\ s_frg s' = s_frg s /\
+  (s_acked s' = 1 \/ (s_acked s' = s_acked s /\ s_data s' = s_data s)).
+
+Lemma ns_husk_refl s : ns_husk s s.
+Proof. unfold ns_husk. auto. Qed.
+
+Lemma ns_husk_trans a b c : ns_husk a b -> ns_husk b c -> ns_husk a c.
+Proof.
+  unfold ns_husk. intros (A1 & A2 & A3) (B1 & B2 & B3).
+  split; [congruence|]. split; [congruence|].
+  destruct B3 as [B3|[B3 B4]]; [left; exact B3|].
+  destruct A3 as [A3|[A3 A4]]; [left; congruence|right; split; congruence].
+Qed.
+
+(* l' is a suffix of l with some elements husked *)
+Definition ns_shr (l l' : list seg) : Prop :=
+  exists j, (j <= length l)%nat /\ Forall2 ns_husk (skipn j l) l'.
+
+Lemma ns_shr_refl l : ns_shr l l.
+Proof. exists 0%nat. split; [lia|]. apply ns_F2_refl. exact ns_husk_refl. Qed.
+
+Lemma ns_shr_of_husk l l' : Forall2 ns_husk l l' -> ns_shr l l'.
+Proof. intros H. exists 0%nat. split; [lia|exact H]. Qed.
+
+Lemma ns_shr_skipn j l : (j <= length l)%nat -> ns_shr l (skipn j l).
+Proof. intros H. exists j. split; [exact H|]. apply ns_F2_refl. exact ns_husk_refl. Qed.
+
+Lemma ns_shr_trans l1 l2 l3 : ns_shr l1 l2 -> ns_shr l2 l3 -> ns_shr l1 l3.
+Proof.
+  intros (j1 & H1 & F1) (j2 & H2 & F2).
+  pose proof (ns_F2_length _ _ _ _ _ F1) as Hl. rewrite skipn_length in Hl.
+  exists (j1 + j2)%nat. split; [lia|].
+  rewrite <- ns_skipn_skipn.
+  apply (ns_F2_comp _ _ _ ns_husk ns_husk ns_husk ns_husk_trans _ (skipn j2 l2)); [|exact F2].
+  apply ns_F2_skipn. exact F1.
+Qed.
+
+Lemma ns_una_walk_skip una : forall l, exists j, (j <= length l)%nat /\ fst (una_walk una l) = skipn j l.
+Proof.
+  induction l as [|s t IH]; cbn [una_walk].
+  - exists 0%nat. split; [cbn; lia|reflexivity].
+  - destruct (itimediff una (s_sn s) >? 0).
+    + destruct IH as (j & Hj & E). destruct (una_walk una t) as [r c]. cbn [fst] in *.
+      exists (S j). split; [cbn [length]; lia|exact E].
+    + exists 0%nat. split; [lia|reflexivity].
+Qed.
+
+Lemma ns_drop_acked_skip : forall l, exists j, (j <= length l)%nat /\ drop_acked l = skipn j l.
+Proof.
+  induction l as [|s t IH]; cbn [drop_acked].
+  - exists 0%nat. split; [cbn; lia|reflexivity].
+  - destruct (s_acked s =? 0).
+    + exists 0%nat. split; [lia|reflexivity].
+    + destruct IH as (j & Hj & E). exists (S j). split; [cbn [length]; lia|exact E].
+Qed.
+
+Lemma ns_ack_walk_husk sn : forall l, Forall2 ns_husk l (ack_walk sn l).
+Proof.
+  induction l as [|s t IH]; cbn [ack_walk]; [constructor|].
+  destruct (sn =? s_sn s).
+  - constructor; [|apply ns_F2_refl; exact ns_husk_refl].
+    unfold ns_husk. ns_segf. split; [reflexivity|]. split; [reflexivity|]. left; reflexivity.
+  - destruct (itimediff sn (s_sn s) <? 0); [apply ns_F2_refl; exact ns_husk_refl|].
+    constructor; [apply ns_husk_refl|exact IH].
+Qed.
+
+Lemma ns_fastack_walk_husk sn ts fr : forall l, Forall2 ns_husk l (fst (fastack_walk sn ts fr l)).
+Proof.
+  induction l as [|s t IH]; cbn [fastack_walk]; [constructor|].
+  destruct (itimediff sn (s_sn s) <? 0); [apply ns_F2_refl; exact ns_husk_refl|].
+  destruct (fastack_walk sn ts fr t) as [t' f]. cbn [fst] in IH.
+  destruct (negb (sn =? s_sn s) && (itimediff (s_ts s) ts <=? 0)).
+  - destruct (s_fastack s =? 4294967295); cbn [fst].
+    + constructor; [apply ns_husk_refl|exact IH].
+    + constructor; [|exact IH]. unfold ns_husk. ns_segf. auto.
+  - cbn [fst]. constructor; [apply ns_husk_refl|exact IH].
+Qed.
+
+Definition ns_ack_ok (a : Z * Z) : Prop := is_u32 (fst a) /\ is_u32 (snd a).
+
+(* what the part of Input before the flush does to the sender side *)
+Definition ns_pre (k k' : kcp) : Prop :=
+  ns_shr (snd_buf k) (snd_buf k') /\ snd_queue k' = snd_queue k /\ snd_nxt k' = snd_nxt k /\
+  conv k' = conv k /\ stream k' = stream k /\
+  (Forall ns_ack_ok (acklist k) -> Forall ns_ack_ok (acklist k')).
+
+Lemma ns_pre_refl k : ns_pre k k.
+Proof. unfold ns_pre. split; [apply ns_shr_refl|]. auto. Qed.
+
+Lemma ns_pre_trans k1 k2 k3 : ns_pre k1 k2 -> ns_pre k2 k3 -> ns_pre k1 k3.
+Proof.
+  intros (A1 & A2 & A3 & A4 & A5 & A6) (B1 & B2 & B3 & B4 & B5 & B6).
+  split; [exact (ns_shr_trans _ _ _ A1 B1)|].
+  split; [congruence|]. split; [congruence|]. split; [congruence|]. split; [congruence|auto].
+Qed.
+
+(* an update that leaves the six fields alone *)
+Lemma ns_pre_frame k k' :
+  snd_buf k' = snd_buf k -> snd_queue k' = snd_queue k -> snd_nxt k' = snd_nxt k ->
+  conv k' = conv k -> stream k' = stream k -> acklist k' = acklist k -> ns_pre k k'.
+Proof.
+  intros E1 E2 E3 E4 E5 E6. unfold ns_pre. rewrite E1, E6.
+  split; [apply ns_shr_refl|]. auto.
+Qed.
+
+Lemma ns_pre_snd_buf k l : ns_shr (snd_buf k) l -> ns_pre k (set_snd_buf k l).
+Proof. intros H. unfold ns_pre. ksimpl. split; [exact H|]. auto. Qed.
+
+Lemma ns_pre_parse_una k una : ns_pre k (fst (parse_una k una)).
+Proof.
+  unfold parse_una. destruct (ns_una_walk_skip una (snd_buf k)) as (j & Hj & E).
+  destruct (una_walk una (snd_buf k)) as [l c]. cbn [fst] in *. subst l.
+  apply ns_pre_snd_buf. apply ns_shr_skipn. exact Hj.
+Qed.
+
+Lemma ns_pre_shrink_buf k : ns_pre k (shrink_buf k).
+Proof.
+  unfold shrink_buf. cbv zeta.
+  destruct (ns_drop_acked_skip (snd_buf k)) as (j & Hj & E).
+  assert (H : ns_shr (snd_buf k) (drop_acked (snd_buf k))) by (rewrite E; apply ns_shr_skipn; exact Hj).
+  destruct (snd_buf (set_snd_buf k (drop_acked (snd_buf k)))) as [|s t];
+    (unfold ns_pre; ksimpl; split; [exact H|auto]).
+Qed.
+
+Lemma ns_pre_parse_ack k sn : ns_pre k (parse_ack k sn).
+Proof.
+  unfold parse_ack. destruct ((itimediff sn (snd_una k) <? 0) || (itimediff sn (snd_nxt k) >=? 0));
+    [apply ns_pre_refl|].
+  apply ns_pre_snd_buf, ns_shr_of_husk, ns_ack_walk_husk.
+Qed.
+
+Lemma ns_pre_parse_fastack k sn ts : ns_pre k (fst (parse_fastack k sn ts)).
+Proof.
+  unfold parse_fastack. destruct ((itimediff sn (snd_una k) <? 0) || (itimediff sn (snd_nxt k) >=? 0));
+    [apply ns_pre_refl|].
+  pose proof (ns_fastack_walk_husk sn ts (fastresend k) (snd_buf k)) as H.
+  destruct (fastack_walk sn ts (fastresend k) (snd_buf k)) as [l f]. cbn [fst] in *.
+  apply ns_pre_snd_buf, ns_shr_of_husk. exact H.
+Qed.
+
+Lemma ns_pre_do_move_ready k : ns_pre k (do_move_ready k).
+Proof.
+  pose proof (do_move_ready_fields k) as
+    (F1 & _ & _ & _ & F5 & F6 & _ & F8 & _ & _ & _ & _ & _ & _ & F15 & _).
+  apply ns_pre_frame; try assumption.
+  unfold do_move_ready.
+  destruct (move_ready (rcv_buf k) (rcv_queue k) (rcv_nxt k) (rcv_wnd k)) as [[rb rq] rn]. reflexivity.
+Qed.
+
+Lemma ns_pre_parse_data k s k' f : parse_data k s = Ok (k', f) -> ns_pre k k'.
+Proof.
+  unfold parse_data. cbv zeta. intros H.
+  destruct ((itimediff (s_sn s) (u32 (rcv_nxt k + rcv_wnd k)) >=? 0) || (itimediff (s_sn s) (rcv_nxt k) <? 0)).
+  { inversion H; subst. apply ns_pre_refl. }
+  destruct (has_sn (s_sn s) (rcv_buf k)).
+  { inversion H; subst. apply ns_pre_do_move_ready. }
+  destruct (blen (s_data s) >? c_mtuLimit); [discriminate|].
+  inversion H; subst. eapply ns_pre_trans; [|apply ns_pre_do_move_ready].
+  apply ns_pre_frame; reflexivity.
+Qed.
+
+Lemma ns_pre_update_ack k rtt : ns_pre k (update_ack k rtt).
+Proof.
+  destruct (ii_update_ack_unf k rtt) as (srtt & var & E). rewrite E. apply ns_pre_frame; reflexivity.
+Qed.
+
+Lemma ns_pre_input_cwnd k una0 : ns_pre k (input_cwnd k una0).
+Proof.
+  unfold input_cwnd.
+  destruct ((nocwnd k =? 0) && (itimediff (snd_una k) una0 >? 0) && (cwnd k <? rmt_wnd k)); [|apply ns_pre_refl].
+  cbv zeta.
+  match goal with |- context [let '(cw, inc) := ?X in _] => destruct X as [cw inc] end.
+  destruct (cw >? rmt_wnd k); apply ns_pre_frame; reflexivity.
+Qed.
+
+Lemma ns_input_seg_pre a data regular :
+  is_byte_list data ->
+  match input_seg a data regular with
+  | inl (Ok (a', rest)) => ns_pre (i_k a) (i_k a') /\ is_byte_list rest
+  | _ => True
+  end.
+Proof.
+  intros Hd. unfold input_seg. cbv zeta.
+  set (k := i_k a) in *.
+  set (len := rd32 (skipn 20 data)).
+  set (pl := skipn 24 data).
+  set (wnd := rd16 (skipn 6 data)).
+  set (ts := rd32 (skipn 8 data)).
+  set (sn := rd32 (skipn 12 data)).
+  set (una := rd32 (skipn 16 data)).
+  set (cmd := nth 4 data 0).
+  destruct (negb (rd32 data =? conv k)); [exact I|].
+  destruct ((blen pl <? len) || (len >? c_mtuLimit)); [exact I|].
+  destruct (negb ((cmd =? c_IKCP_CMD_PUSH) || (cmd =? c_IKCP_CMD_ACK) || (cmd =? c_IKCP_CMD_WASK)
+                  || (cmd =? c_IKCP_CMD_WINS))); [exact I|].
+  assert (Hsn : is_u32 sn) by (apply ii_rd32_range, ii_bl_skipn; exact Hd).
+  assert (Hts : is_u32 ts) by (apply ii_rd32_range, ii_bl_skipn; exact Hd).
+  assert (Hrest : is_byte_list (drop len pl)) by (apply ii_bl_drop, ii_bl_skipn; exact Hd).
+  set (k1 := if regular then set_rmt_wnd k wnd else k).
+  assert (S1 : ns_pre k k1).
+  { unfold k1. destruct regular; [apply ns_pre_frame; reflexivity|apply ns_pre_refl]. }
+  pose proof (ns_pre_parse_una k1 una) as S2.
+  destruct (parse_una k1 una) as [k2 cnt]. cbn [fst] in S2.
+  pose proof (ns_pre_shrink_buf k2) as S3.
+  set (k3 := shrink_buf k2) in *.
+  assert (S03 : ns_pre k k3) by (eapply ns_pre_trans; [exact S1|]; eapply ns_pre_trans; [exact S2|exact S3]).
+  destruct (cmd =? c_IKCP_CMD_ACK).
+  { pose proof (ns_pre_parse_ack k3 sn) as S4. set (k4 := parse_ack k3 sn) in *.
+    pose proof (ns_pre_parse_fastack k4 sn ts) as S5.
+    destruct (parse_fastack k4 sn ts) as [k5 f]. cbn [fst] in S5.
+    pose proof (ns_pre_shrink_buf k5) as S6. cbn [i_k].
+    split; [|exact Hrest].
+    eapply ns_pre_trans; [exact S03|]. eapply ns_pre_trans; [exact S4|].
+    eapply ns_pre_trans; [exact S5|exact S6]. }
+  destruct (cmd =? c_IKCP_CMD_PUSH).
+  { destruct (itimediff sn (u32 (rcv_nxt k3 + rcv_wnd k3)) <? 0).
+    - set (k4 := set_acklist k3 (acklist k3 ++ [(sn, ts)])).
+      assert (S4 : ns_pre k3 k4).
+      { unfold ns_pre, k4. ksimpl. split; [apply ns_shr_refl|]. repeat (split; [reflexivity|]).
+        intros Ha. apply Forall_app. split; [exact Ha|]. constructor; [|constructor].
+        split; [exact Hsn|exact Hts]. }
+      destruct (itimediff sn (rcv_nxt k4) >=? 0).
+      + match goal with |- context [parse_data k4 ?S] => set (sg := S) end.
+        destruct (parse_data k4 sg) as [[k5 f]|w] eqn:Epd; [|exact I]. cbn [i_k].
+        split; [|exact Hrest].
+        eapply ns_pre_trans; [exact S03|]. eapply ns_pre_trans; [exact S4|].
+        exact (ns_pre_parse_data _ _ _ _ Epd).
+      + cbn [i_k]. split; [|exact Hrest]. eapply ns_pre_trans; [exact S03|exact S4].
+    - cbn [i_k]. split; [exact S03|exact Hrest]. }
+  destruct (cmd =? c_IKCP_CMD_WASK).
+  { cbn [i_k]. split; [|exact Hrest]. eapply ns_pre_trans; [exact S03|]. apply ns_pre_frame; reflexivity. }
+  cbn [i_k]. split; [exact S03|exact Hrest].
+Qed.
+
+Lemma ns_input_loop_pre : forall fuel a data regular a' e,
+  is_byte_list data -> input_loop fuel a data regular = Ok (a', e) -> ns_pre (i_k a) (i_k a').
+Proof.
+  induction fuel as [|f IH]; intros a data regular a' e Hd H; cbn [input_loop] in H.
+  - inversion H; subst. apply ns_pre_refl.
+  - destruct (blen data <? c_IKCP_OVERHEAD); [inversion H; subst; apply ns_pre_refl|].
+    pose proof (ns_input_seg_pre a data regular Hd) as Hs.
+    destruct (input_seg a data regular) as [[[a1 rest]|w]|code].
+    + destruct Hs as [Hs Hr]. eapply ns_pre_trans; [exact Hs|]. exact (IH _ _ _ _ _ Hr H).
+    + discriminate.
+    + inversion H; subst. apply ns_pre_refl.
+Qed.
+
+Lemma ns_input_pre_pre k d regular nd now k1 r fr :
+  is_byte_list d -> input_pre k d regular nd now = Ok (k1, r, fr) -> ns_pre k k1.
+Proof.
+  intros Hd. unfold input_pre. cbv zeta.
+  destruct (blen d <? c_IKCP_OVERHEAD); [intros H; inversion H; subst; apply ns_pre_refl|].
+  match goal with |- context [input_loop ?f ?a d regular] =>
+    destruct (input_loop f a d regular) as [[a' e]|w] eqn:El; [|discriminate];
+    pose proof (ns_input_loop_pre f a d regular a' e Hd El) as Hl end.
+  cbn [i_k] in Hl.
+  destruct e as [|code]; [|intros H; inversion H; subst; exact Hl].
+  set (k2 := if i_rtt a' && regular && (itimediff now (i_latest a') >=? 0)
+             then update_ack (i_k a') (itimediff now (i_latest a')) else i_k a').
+  assert (S2 : ns_pre (i_k a') k2).
+  { unfold k2. destruct (i_rtt a' && regular && (itimediff now (i_latest a') >=? 0));
+      [apply ns_pre_update_ack|apply ns_pre_refl]. }
+  pose proof (ns_pre_input_cwnd k2 (snd_una k)) as S3.
+  set (k3 := input_cwnd k2 (snd_una k)) in *.
+  assert (S : ns_pre k k3) by (eapply ns_pre_trans; [exact Hl|]; eapply ns_pre_trans; [exact S2|exact S3]).
+  destruct (i_flush a'); [intros H; inversion H; subst; exact S|].
+  destruct (Z.of_nat (length (acklist k3)) >=? mtu k3 / c_IKCP_OVERHEAD); [intros H; inversion H; subst; exact S|].
+  destruct (nd && (Z.of_nat (length (acklist k3)) >? 0)); intros H; inversion H; subst; exact S.
+Qed.
+
+(* ---- with the invariant on both sides: snd_una advanced by the number of dropped heads ---- *)
+Lemma ns_contig_skipn : forall j l b, is_u32 b -> contiguous b l ->
+  contiguous (u32 (b + Z.of_nat j)) (skipn j l).
+Proof.
+  induction j as [|j IH]; intros l b Hb H.
+  - cbn [skipn Z.of_nat]. rewrite Z.add_0_r, u32_id by exact Hb. exact H.
+  - destruct l as [|s t]; [exact I|]. cbn [skipn]. cbn [contiguous] in H. destruct H as [_ H2].
+    pose proof (IH t (u32 (b + 1)) (u32_range _) H2) as H3.
+    rewrite u32_add_mod in H3. replace (b + Z.of_nat (S j)) with (b + 1 + Z.of_nat j) by lia. exact H3.
+Qed.
+
+Lemma ns_pre_una k k1 : inv k -> inv k1 -> ns_pre k k1 ->
+  exists j, (j <= length (snd_buf k))%nat /\ snd_una k1 = u32 (snd_una k + Z.of_nat j) /\
+    Forall2 ns_husk (skipn j (snd_buf k)) (snd_buf k1).
+Proof.
+  intros Hi Hi1 ((j & Hj & F) & _ & Hn & _).
+  exists j. split; [exact Hj|]. split; [|exact F].
+  pose proof (ns_contig_skipn j _ _ (I_una_u32 _ Hi) (I_sb_contig _ Hi)) as Hc.
+  pose proof (I_sb_contig _ Hi1) as Hc1. pose proof (I_snd_nxt _ Hi1) as Hn1.
+  destruct (snd_buf k1) as [|s' t'] eqn:E1.
+  - inversion F as [E0|]. pose proof (f_equal (@length seg) (eq_sym E0)) as Hl.
+    rewrite skipn_length in Hl. cbn [length] in Hl.
+    unfold qlen in Hn1. cbn [length Z.of_nat] in Hn1. rewrite Z.add_0_r, u32_id in Hn1 by exact (I_una_u32 _ Hi1).
+    rewrite <- Hn1, Hn, (I_snd_nxt _ Hi). unfold qlen. f_equal. lia.
+  - inversion F as [|s s2 t t2 Hh Ht E0 E2]; subst s2 t2. rewrite <- E0 in Hc.
+    cbn [contiguous] in Hc, Hc1. destruct Hh as (Hsn & _). rewrite <- (proj1 Hc1), Hsn. exact (proj1 Hc).
 Qed.
